@@ -28,8 +28,8 @@ func init() {
 		Rule: "sessions whose strings (NameID, user name, e-mail, common/sur/given name, affiliation, groups, custom attribute names/values, session index, subject id) are drawn from XML 1.0 Char classes (markup, quotes, TAB/LF/CR/CRLF, leading/trailing/only white space, CDATA/comment look-alikes, U+0085/U+2028/U+FFFD, non-BMP, empty) x SP configuration {entity ID set/unset, RSA-1024..4096 and ECDSA P-256/384/521 keys, redirect/POST request binding, signed/unsigned requests} x IdP signature method {default, rsa-sha1/256/384/512}. " +
 			"The library SP is configured from xml(idp.Metadata()) re-parsed, registers at the library IdP with xml(sp.Metadata()) re-parsed, issues a request through its binding, the IdP answers through ServeSSO-equivalent steps and the SP parses the emitted form. Oracle: accepted, NameID and the ordered attribute (name, friendly name, format, values) list equal the assertion the IdP built and every session-originated string equals the session's. Non-trivial = IdP produced a response and the SP was called; distinct by session strings x configuration.",
 		Assumptions: []string{"strings outside XML 1.0 Char (NUL, U+FFFE...) are not generated", "third-party IdPs/SPs are not in the loop"},
-		FloorQuick:  1500,
-		FloorThor:   30000,
+		FloorQuick:  450,
+		FloorThor:   2000,
 		Run:         runC07,
 		LevelText:   "Generated IdP output is fed into the SP across the string and configuration space (something no existing test does) and identity equality is judged on the SP's result. Held-on-observed.",
 		LevelNote:   "Trusts x/net/html for reading the emitted form; the expectation is the assertion struct the IdP itself built plus the session given to it.",
